@@ -170,7 +170,7 @@ def run(ck):
             mt_reqs.append((pi_, o, mt_line(p, o)))
     text_acc = "".join(r["line"] + "\n" for r in accs)
     text = text_acc + "".join(r["line"] + "\n" for r in fps) + "".join(l + "\n" for _, _, l in mt_reqs)
-    pi = ck.run([harness], input=text, timeout=2400)
+    pi = c48lib.run_harness(ck, harness, text)
     pm = ck.run([driver], input=text_acc, timeout=1200)
     if pi.returncode != 0:
         ck.violation("harness-crash", "the implementation harness aborted (sanitizer or crash)",
